@@ -229,7 +229,7 @@ theorem resetDelivery_inv {c : Conn} (h : Inv c) (sid : Nat) (d : Delivery) (hwf
 
 /-- well-formed operations: the hypotheses under which the invariant is proved -/
 def Op.wf (c : Conn) : Op → Prop
-  | .transportParams tp => tp.monotone c
+  | .transportParams tp => tp.guarded c ∨ tp.monotone c
   | .dataDelivery sid _ _ _ _ => notBlocked c sid
   | .resetDelivery sid _ => notBlocked c sid
   | _ => True
@@ -242,7 +242,7 @@ theorem step_inv {c : Conn} (h : Inv c) (op : Op) (hwf : op.wf c) : Inv (step c 
   · exact rxMaxData_inv h _
   · exact rxMaxStreamData_inv h _ _
   · exact rxMaxStreams_inv h _ _
-  · exact transportParams_inv h _ hwf
+  · exact rxTransportParams_inv h _ hwf
   · exact unblockStreams_inv h _
   · exact rxStopSending_inv h _
   · exact rxStreamDataBlocked_inv h _
